@@ -36,7 +36,7 @@ def run(ctx):
              for cp in (False, True) for b in ("I", "S4", "E3")]
     for j in base2:
         j["opts"]["max_fun_evals"] = 30 + 15 * j["D"]
-    st = explore(base2, ["ans"], 0 if q else 1, sink, stats=st, name="policies-I/S4/E3+ball")
+    st = explore(base2, ["ans"], 0 if q else 1, sink, stats=st, name="policies-I/S4/E3+ball", pos_ok=None if q else (lambda kind, pos, res: pos < 16))
     # (c) b=2 on a 12-call window (quick), b=3 on D=1 (thorough)
     win = [job(1, "lin", seed=seeds[0]), job(1, "unb", cp=True, seed=seeds[0])]
     if q:
@@ -62,7 +62,7 @@ def run(ctx):
                 {"uncertainty_handling": False}, {"uncertainty_handling": 0}]
     ov = [job(D, g, target=t, opts=dict(v, max_fun_evals=35 + 10 * D), seed=seeds[0], base=b) for D in (1, 2) for g in ("lin", "log") for v in variants
           for t, b in (("adv", "F"), ("adv", "S4"), ("sphere_in", "F"))]
-    st = explore(ov, ["ans"], 0 if q else 1, sink, stats=st, name="option-variants")
+    st = explore(ov, ["ans"], 0 if q else 1, sink, stats=st, name="option-variants", pos_ok=None if q else (lambda kind, pos, res: pos < 10))
     # logger caches smaller than the initial design (the arrays grow while the design is being evaluated), with and without a transform
     cg = [job(D, g, target=t, base=b, opts={"cache_size": cs, "max_fun_evals": 30 + 10 * D}, seed=seeds[0], x0=x0) for D in (1, 2, 3) for g in ("lin", "log", "unb") for cs in (2, 3, 4)
           for t, b in (("adv", "F"), ("sphere_in", "F"), ("sphere_corner", "F")) for x0 in ("in", "lb") if not (g == "unb" and x0 == "lb")]
